@@ -114,6 +114,9 @@ class Ref:
         P = self.P
         k = e[0]
         t = L.typeof(e, self.env, sc)
+        if k == 'rawlit':
+            e = ('lit', e[1], e[3])
+            k = 'lit'
         if k == 'lit':
             ty, v = e[1], e[2]
             if ty == 'int':
